@@ -105,7 +105,7 @@ func emittedOf(w *core.Walked) []string {
 // ---------------------------------------------------------------- C05
 
 func genWalk(t *rapid.T) WalkCase {
-	return genWalkWith(t, sm.SpecOpts{Deterministic: true, NativeToo: true, Fail: 2, GuardFail: 1, Emit: true, UserErrorNode: true, Lively: rapid.IntRange(0, 3).Draw(t, "lively") > 0})
+	return genWalkWith(t, sm.SpecOpts{Deterministic: true, NativeToo: true, Fail: 2, GuardFail: 1, Emit: true, UserErrorNode: true, ArrayVar: true, Lively: rapid.IntRange(0, 3).Draw(t, "lively") > 0})
 }
 
 func checkWalk(c WalkCase) (v ev.Verdict) {
@@ -317,7 +317,7 @@ func TestC05Walk(t *testing.T) {
 // ---------------------------------------------------------------- C06
 
 func genHold(t *rapid.T) WalkCase {
-	c := genWalkWith(t, sm.SpecOpts{Deterministic: true, NativeToo: true, InPlace: true, Fail: 5, GuardFail: 3, Emit: true, UserErrorNode: true})
+	c := genWalkWith(t, sm.SpecOpts{Deterministic: true, NativeToo: true, InPlace: true, Scribble: true, ArrayVar: true, Fail: 5, GuardFail: 3, Emit: true, UserErrorNode: true, Lively: rapid.Bool().Draw(t, "lively")})
 	c.UseStep = rapid.IntRange(0, 2).Draw(t, "useStep") == 0
 	c.Cuts = nil
 	return c
